@@ -38,7 +38,7 @@ Query(id)                       == Pc(id, "catch", "query", "S", Z)
 
 Amt == "1000000"
 Methods == {"delegate", "undelegate", "redelegate", "cancelUnbonding", "withdrawRewards", "claimRewards",
-            "setWithdrawAddress", "withdrawCommission"}
+            "setWithdrawAddress", "withdrawCommission", "ibcTransfer"}
 Whos == {"S", "self", "T"}
 NoGrant == <<>>
 Grant(ty, lim, exp, val) == [grantee |-> "C0", type |-> ty, limit |-> lim, expired |-> exp, val |-> val]
@@ -101,7 +101,7 @@ C02Create ==
               w \in {"self", "W"}, v \in {Z, "600"}} : m \in {"delegate", "withdrawRewards", "setWithdrawAddress", "query"}}
 
 \* ----- C05: exactly one frame reverts ---------------------------------------------------
-RevMethods == {"delegate", "undelegate", "withdrawRewards", "claimRewards", "setWithdrawAddress", "approve", "redelegate"}
+RevMethods == {"delegate", "undelegate", "withdrawRewards", "claimRewards", "setWithdrawAddress", "approve", "redelegate", "ibcTransfer"}
 PcM(id, mode, m) == IF m = "approve" THEN PcG(id, mode, "approve", "C0", "4000000") ELSE Pc(id, mode, m, "S", Amt)
 C05Trees(m) ==
     { \* (i) the frame that made the precompile call reverts afterwards, the parent catches
@@ -188,7 +188,7 @@ AbstractPre(x) ==
         gv(g, e, t) == LET hit == {i \in 1..Len(x.setup.grants) : g = "S" /\ x.setup.grants[i].grantee = e /\ x.setup.grants[i].type = t} IN
                        IF hit = {} THEN <<>> ELSE <<ValName(x.setup.grants[CHOOSE i \in hit : TRUE].val)>>
     IN [ bank |-> [a \in as |-> IF a \in cs THEN "5000000000" ELSE "900000000000"],
-         mods |-> [m \in {"bonded", "notbonded", "distr", "feecollector", "evm"} |-> "70000000000"],
+         mods |-> [m \in {"bonded", "notbonded", "distr", "feecollector", "evm", "escrow"} |-> "70000000000"],
          supply |-> "100000000000000",
          deleg |-> [a \in as |-> [v \in vs |-> IF (a \in {"S", "T"} /\ v = "V1") \/ own(a, v) THEN "50000000" ELSE Z]],
          ubd |-> [a \in as |-> [v \in vs |-> IF a = "S" /\ v = "V1" THEN "5000000" ELSE Z]],
